@@ -137,6 +137,8 @@ def ext_name_ok(s):
 
 
 RESERVED_URLS = ("http://www.w3.org/XML/1998/namespace", "http://www.w3.org/2000/xmlns/")
+# an extension needs its own URL: not empty, not the E57 namespace
+FORBIDDEN_URLS = RESERVED_URLS + ("", "http://www.astm.org/COMMIT/E57/2010-e57-v1.0")
 
 
 def proto_rule_violations(proto, registered):
@@ -179,6 +181,8 @@ def proto_rule_violations(proto, registered):
                 bad.append("extension-name-malformed")
             elif n[1] not in registered:
                 bad.append("extension-unregistered")
+    if len(set(names)) != len(names):
+        bad.append("attribute-twice")
     for _, t in proto:
         if type_kind(t) in ("I", "S") and type_range(t)[0] > type_range(t)[1]:
             bad.append("empty-integer-range")
@@ -298,8 +302,11 @@ def interpret(calls, results):
             continue
         if k == "FIN":
             if ok:
+                if out["fin_count"]:
+                    out["accepted_unrepresentable"].append((i, "finalize was accepted a second time"))
                 out["fin_count"] += 1
-            out["final_ok"] = ok
+                out["final_ok"] = True
+            # a rejected finalize is a no-op: a file finalized before stays finalized
         elif k != "NEW" and ok:
             # an accepted call after the last finalize: the file is not finalized any more
             out["final_ok"] = False
@@ -309,8 +316,8 @@ def interpret(calls, results):
                     out["accepted_unrepresentable"].append((i, "extension namespace %r is malformed" % c[1]))
                 if c[1] in registered:
                     out["accepted_unrepresentable"].append((i, "extension namespace %r registered twice" % c[1]))
-                if c[2] in RESERVED_URLS:
-                    out["accepted_unrepresentable"].append((i, "extension URL %r is reserved by XML" % c[2]))
+                if c[2] in FORBIDDEN_URLS:
+                    out["accepted_unrepresentable"].append((i, "extension URL %r is reserved, empty or the E57 namespace" % c[2]))
                 if c[2] in urls:
                     out["accepted_unrepresentable"].append((i, "extension URL %r registered twice" % c[2]))
                 registered.add(c[1])
@@ -321,6 +328,7 @@ def interpret(calls, results):
                 out["blobs"].append((int(o), int(l), bytes(c[1])))
                 if out["fin_count"]:
                     out["writes_after_fin"] = True
+                    out["accepted_unrepresentable"].append((i, "add_blob was accepted after finalize"))
         elif k == "PC":
             cur_pc, pc_finalized = None, 0
             if ok:
@@ -330,10 +338,13 @@ def interpret(calls, results):
                 cur_pc = Expect(c[1], c[2])
                 if out["fin_count"]:
                     out["writes_after_fin"] = True
+                    out["accepted_unrepresentable"].append((i, "add_pointcloud was accepted after finalize"))
         elif k == "PT" and cur_pc is not None:
             if ok:
                 if not point_ok(cur_pc.proto, c[1]):
                     out["accepted_unrepresentable"].append((i, "point %s does not fit prototype %s" % (",".join(c[1])[:80], proto_tok(cur_pc.proto)[:80])))
+                if pc_finalized:
+                    out["accepted_unrepresentable"].append((i, "add_point was accepted after the point cloud was finalized"))
                 cur_pc.points.append(c[1])
         elif k == "PSET" and cur_pc is not None:
             if c[1] == "ilim":
@@ -351,13 +362,19 @@ def interpret(calls, results):
                     out["anomalies"].append(("subwriter-finalize-twice", i, "PointCloudWriter::finalize returned Ok a second time"))
         elif k == "IMG":
             cur_img, img_finalized = (dict(vis=None, proj=None) if ok else None), 0
+            if ok and out["fin_count"]:
+                out["accepted_unrepresentable"].append((i, "add_image was accepted after finalize"))
         elif k == "IVIS" and cur_img is not None and ok:
+            if img_finalized:
+                out["accepted_unrepresentable"].append((i, "image data was accepted after the image was finalized"))
             cur_img["vis"] = (bytes(c[2]), c[5])
             if out["fin_count"]:
                 out["writes_after_fin"] = True
         elif k in ("IPIN", "ISPH", "ICYL") and cur_img is not None and ok:
             if cur_img["proj"] is not None:
                 out["accepted_unrepresentable"].append((i, "a second projection was accepted for one image"))
+            if img_finalized:
+                out["accepted_unrepresentable"].append((i, "image data was accepted after the image was finalized"))
             cur_img["proj"] = (k, bytes(c[2]), c[4])
             if out["fin_count"]:
                 out["writes_after_fin"] = True
